@@ -281,3 +281,20 @@ Proof.
 Qed.
 
 End Blocks.
+
+(* ---------------- views used as witnesses / examples in Props/C10.v ---------------- *)
+(* known finding tdigest-D17: a unit first centroid that is not min *)
+Definition d17_view : view := mkView 0 40 [(10, 1%positive); (20, 1%positive); (30, 10%positive)] 12.
+(* two centroids share the mean 5 *)
+Definition dup_view : view := mkView 5 9 [(5, 10%positive); (5, 1%positive); (9, 1%positive)] 12.
+(* heavy first and last centroids, never produced in process *)
+Definition heavy_view : view := mkView 0 40 [(10, 10%positive); (20, 1%positive); (30, 10%positive)] 21.
+
+Lemma rank_mono_without_tight_ends_refuted :
+  exists v x y r r', wf_view v /\ x <= y /\ rank v x = Ok (Some r) /\ rank v y = Ok (Some r') /\ r' < r.
+Proof.
+  exists d17_view, (1 # 2), 5. eexists. eexists.
+  split; [constructor; cbn; try discriminate; try reflexivity; repeat split; apply Qle_bool_iff; reflexivity|].
+  split; [apply Qle_bool_iff; reflexivity|]. split; [vm_compute; reflexivity|]. split; [vm_compute; reflexivity|].
+  reflexivity.
+Qed.
